@@ -1,8 +1,66 @@
 import JrsVerif.Common.J
+import JrsVerif.Model.Fmt
+import JrsVerif.Model.FmtWf
 
 namespace JrsVerif.Drv.C19
-open Lean JrsVerif.J
+open Lean JrsVerif.J JrsVerif.Fmt
 
-def handle (_op : String) (_j : Json) : Option Json := none
+/-- `[label, kid, ...]` = node, string = atom (the encoding of `c19.rs: tree`) -/
+partial def parseTree (j : Json) : Option Tree :=
+  match j with
+  | .str s => some (.atom s)
+  | .arr a =>
+    match a.toList with
+    | .str l :: ks => do
+      let ks ← ks.mapM parseTree
+      some (.node l ks)
+    | _ => none
+  | _ => none
+
+def parseToks (a : Array Json) : Option (List Tok) :=
+  a.toList.mapM fun t =>
+    match t with
+    | .arr #[.str k, .str s] => some ⟨k, s⟩
+    | _ => none
+
+def jBool (b : Bool) : Json := .bool b
+
+/-- `fmt.validate`: the per-case verdict `Fmt.accept` on what the harness observed -/
+def handle (op : String) (j : Json) : Option Json :=
+  match op with
+  | "fmt.validate" =>
+    match str? j "outcome" with
+    | some "panic" => some (obj [("observed", jBool false), ("_fail", ofStrs ["panic"])])
+    | some "declined" => some (obj [("observed", jBool true), ("_declined", jBool true)])
+    | some "formatted" =>
+      match (do
+        let i ← parseTree (← val? j "in_ast")
+        let it ← parseToks (← arr? j "in_toks")
+        let ot ← parseToks (← arr? j "out_toks")
+        pure (i, it, ot)) with
+      | none => some (bad "fmt.validate: parse")
+      | some (i, it, ot) =>
+        let o : Option Tree := match val? j "out_ast" with
+          | some .null | none => none
+          | some t => parseTree t
+        let evalSame := match val? j "eval_in", val? j "eval_out" with
+          | some a, some b => a == b
+          | _, _ => false
+        let binSame := str? j "bin" != some "differ"
+        let c : Case := { declined := false, panicked := false, inAst := i, outAst := o,
+                          inToks := it, outToks := ot, evalSame := evalSame, binSame := binSame }
+        let wfOk := wf i && (match o with | some t => wf t | none => true)
+        if !wfOk then some (bad "fmt.validate: serialised tree outside the shape grammar (walker/model encoding mismatch)") else
+        let fails :=
+          (if o.isNone then ["reparse"] else if !c.astOk then ["ast"] else []) ++
+          (if !c.commentsOk then ["comments"] else []) ++
+          (if !evalSame then ["eval"] else []) ++ (if !binSame then ["bin"] else [])
+        let sub := isSubseq (comments ot) (comments it)
+        some (obj [("observed", jBool (accept c)), ("_fail", ofStrs fails),
+                   ("_out_comments_subseq", jBool sub),
+                   ("_n_comments", toJson (comments it).length),
+                   ("_n_out_comments", toJson (comments ot).length)])
+    | _ => some (bad "fmt.validate: outcome")
+  | _ => none
 
 end JrsVerif.Drv.C19
